@@ -2,16 +2,19 @@ package main
 
 import (
 	"bufio"
+	"bytes"
 	"crypto/ecdsa"
 	"crypto/elliptic"
 	"crypto/rand"
 	"crypto/x509"
 	"crypto/x509/pkix"
+	"encoding/base64"
 	"encoding/json"
 	"encoding/pem"
 	"fmt"
 	"io/ioutil"
 	"math/big"
+	"mime/multipart"
 	"net/http"
 	"net/http/httptest"
 	"net/url"
@@ -246,6 +249,217 @@ func c17Forms(body []byte) map[string]url.Values {
 	return out
 }
 
+// ---------------------------------------------------------------- fragment/query x dot-segments x dangerous pair
+// net/http.Redirect splits a host-less target at the first '?' only and runs path.Clean over everything in front
+// of it; url.Parse splits at '#' and '?' and decodes.  A destination whose first segments carry a fragment or
+// query marker (raw or encoded), followed by enough ".." to cancel them, followed by a dangerous pair and a host,
+// is where a filter that looks at the PARSED components and the redirect that cleans the RAW string disagree:
+//
+//	/<seg>[/<seg>]{#,?,%23,...}[/<seg>]/..{/..}*/<dangerous pair><host>
+func c17DotSegPrefixes(markers []string, allPositions bool) []string {
+	var out []string
+	segs := []string{"a", "b", "c"}
+	for n := 1; n <= 3; n++ {
+		for pos := 1; pos <= n; pos++ {
+			if !allPositions && pos != n && pos != 1 {
+				continue
+			}
+			for _, m := range markers {
+				lead := ""
+				for i := 0; i < n; i++ {
+					lead += "/" + segs[i]
+					if i+1 == pos {
+						lead += m
+					}
+				}
+				ups := ""
+				for k := 1; k <= n+1; k++ {
+					ups += "/.."
+					out = append(out, lead+ups+"/")
+				}
+			}
+		}
+	}
+	return out
+}
+
+// what may follow the cancelled segments: one or two bytes a browser or a later decoding step turns into "//"
+func c17DangerousPairs(full bool) []string {
+	singles := []string{"\\", "/", "\t", "%5C", "%5c", "%2F", "%2f", "@"}
+	two := []string{"\\", "/", "\t", "%5C", "%2F"}
+	if full {
+		singles = nil
+		two = nil
+		for _, b := range []byte{'/', '\\', '\t', '\n', '\r', ' ', 0, '@', ':', '?', '#', '.', '%'} {
+			two = append(two, string([]byte{b}), fmt.Sprintf("%%%02X", b), fmt.Sprintf("%%%02x", b))
+		}
+		singles = append(singles, two...)
+	}
+	out := append([]string{}, singles...)
+	for _, a := range two {
+		for _, b := range two {
+			out = append(out, a+b)
+		}
+	}
+	return out
+}
+
+func c17DotSegFamily(full bool) []string {
+	markers := []string{"#", "?", "%23"}
+	if full {
+		markers = []string{"#", "?", "%23", "%3F", "%3f", "#x", "?x=1", ";", "#?", "?#"}
+	}
+	var out []string
+	for _, p := range c17DotSegPrefixes(markers, full) {
+		for _, d := range c17DangerousPairs(full) {
+			out = append(out, p+d+"evil.example/")
+		}
+	}
+	return out
+}
+
+// the members of the family that go through every redirecting handler
+func c17DotSegFew(full bool) []string {
+	markers := []string{"#", "?", "%23"}
+	pairs := []string{"\\", "/", "\\\\", "/\\", "%5C", "\t/"}
+	if full {
+		markers = append(markers, "#x", "?x=1")
+		pairs = c17DangerousPairs(false)
+	}
+	var out []string
+	for _, p := range c17DotSegPrefixes(markers, full) {
+		for _, d := range pairs {
+			out = append(out, p+d+"evil.example/")
+		}
+	}
+	return out
+}
+
+// ---------------------------------------------------------------- request channels
+// cookie names the package reads or sets and the parameter names the destination function reads, harvested from
+// the current source by tools/extract/c17_channels.go
+type c17ChannelHarvest struct {
+	CookieNames []struct {
+		Name  string `json:"name"`
+		Kind  string `json:"kind"`
+		Where string `json:"where"`
+	} `json:"cookie_names"`
+	DestinationParams []string `json:"destination_params"`
+}
+
+func c17LoadChannels(t *testing.T) c17ChannelHarvest {
+	var h c17ChannelHarvest
+	b, err := ioutil.ReadFile(filepath.Join(verifOut(), "gen", "c17_channels.json"))
+	if err != nil {
+		t.Fatalf("harvested channel table missing: %v", err)
+	}
+	if err := json.Unmarshal(b, &h); err != nil {
+		t.Fatal(err)
+	}
+	return h
+}
+
+// one request part other than the form/query value: kind 0 cookie, 1 header, 2 non-form body, 3 path suffix,
+// 4 multipart field (net/http makes it part of r.Form only when the handler has not parsed the form before)
+type c17Chan struct {
+	kind        int
+	name, value string
+}
+
+type c17Probe struct {
+	class         string // stable name of the channel shape (oracle key component)
+	form          *string
+	cookiesBefore []string // raw "name=value", sent in front of the session cookie
+	cookiesAfter  []string
+	headers       [][2]string
+	jsonBody      string
+	multipart     [][2]string
+	pathSuffix    string
+	chans         []c17Chan
+}
+
+func c17HeaderNames(param string) []string {
+	parts := strings.FieldsFunc(param, func(r rune) bool { return r == '_' || r == '-' })
+	for i := range parts {
+		if parts[i] != "" {
+			parts[i] = strings.ToUpper(parts[i][:1]) + parts[i][1:]
+		}
+	}
+	canon := strings.Join(parts, "-")
+	return []string{canon, "X-" + canon, param}
+}
+
+// every shape of request that carries `hostile` somewhere a handler could read it, but no form/query value
+func c17ChannelProbes(h c17ChannelHarvest, hostile string, sessionCookies []string) []c17Probe {
+	var out []c17Probe
+	params := h.DestinationParams
+	if len(params) == 0 {
+		params = []string{"login_destination"}
+	}
+	cookieNames := []string{}
+	seen := map[string]bool{}
+	addName := func(n string) {
+		if n != "" && !seen[n] {
+			seen[n] = true
+			cookieNames = append(cookieNames, n)
+		}
+	}
+	for _, c := range h.CookieNames {
+		addName(c.Name)
+	}
+	for _, p := range params {
+		addName(p)
+		addName(strings.ReplaceAll(p, "_", "-"))
+		addName(strings.ReplaceAll(p, "_", ""))
+	}
+	empty := ""
+	for _, n := range cookieNames {
+		for _, enc := range []struct{ name, v string }{{"raw", hostile}, {"query-escaped", url.QueryEscape(hostile)}, {"base64", base64.StdEncoding.EncodeToString([]byte(hostile))}} {
+			v := enc.v
+			if strings.ContainsAny(v, "; \t\r\n\x00\",\\") {
+				continue // not a cookie value net/http would hand to the handler
+			}
+			ch := []c17Chan{{0, n, v}}
+			out = append(out, c17Probe{class: "cookie", cookiesBefore: []string{n + "=" + v}, chans: ch})
+			for _, sc := range sessionCookies {
+				if sc == n { // a second cookie of the session's own name: the order matters to whoever picks one
+					out = append(out, c17Probe{class: "cookie", cookiesAfter: []string{n + "=" + v}, chans: ch})
+				}
+			}
+			if enc.name == "query-escaped" {
+				out = append(out, c17Probe{class: "cookie+empty-form-value", form: &empty, cookiesAfter: []string{n + "=" + v}, chans: ch})
+			}
+		}
+	}
+	for _, p := range params {
+		for _, hn := range c17HeaderNames(p) {
+			for _, v := range []string{hostile, url.QueryEscape(hostile)} {
+				if strings.ContainsAny(v, "\r\n\x00") {
+					continue
+				}
+				out = append(out, c17Probe{class: "header", headers: [][2]string{{hn, v}}, chans: []c17Chan{{1, hn, v}}})
+			}
+		}
+		jb, _ := json.Marshal(map[string]string{p: hostile})
+		out = append(out, c17Probe{class: "json-body", jsonBody: string(jb), chans: []c17Chan{{2, p, string(jb)}}})
+		out = append(out, c17Probe{class: "multipart-field", multipart: [][2]string{{p, hostile}}, chans: []c17Chan{{4, p, hostile}}})
+	}
+	if !strings.ContainsAny(hostile, "?#\r\n\x00\t \\") {
+		for _, sfx := range []string{hostile, "/" + hostile} {
+			out = append(out, c17Probe{class: "path-suffix", pathSuffix: sfx, chans: []c17Chan{{3, "", sfx}}})
+		}
+	}
+	return out
+}
+
+func coqChans(l []c17Chan) string {
+	var parts []string
+	for _, c := range l {
+		parts = append(parts, fmt.Sprintf("(%d%%N, %s, %s)", c.kind, coqPacked([]byte(c.name)), coqPacked([]byte(c.value))))
+	}
+	return "[" + strings.Join(parts, "; ") + "]"
+}
+
 func c17Env(t *testing.T, providerURL string, force bool, more func(c *AppConfigFile, dir string)) *verifEnv {
 	return verifSetup(t, func(c *AppConfigFile, dir string) {
 		c.Oauth2.Enabled = true
@@ -269,7 +483,7 @@ func c17Env(t *testing.T, providerURL string, force bool, more func(c *AppConfig
 }
 
 func TestVerif_C17(t *testing.T) {
-	res := newVerifResult("login_destination strings: exhaustive over {/ \\\\ . a TAB ? # % : @}^<=L (L=4 quick, 5 thorough) through getLoginDestination+http.Redirect, a structured adversarial list, every raw/percent-encoded pair of dangerous bytes after the leading slash, and seeded random strings through POST /api/v0/login (text/html); the federated-login flow; the success path of every redirecting second-factor handler (bootstrap OTP, TOTP, VIP, Okta) with hostile values in the form field, the query string, Referer, Origin and forwarding headers; non-trivial = the filter accepted the string (redirect target differs from the profile page); distinct by (input, Location)")
+	res := newVerifResult("login_destination strings: exhaustive over {/ \\\\ . a TAB ? # % : @}^<=L (L=4 quick, 5 thorough) through getLoginDestination+http.Redirect, a structured adversarial list, every raw/percent-encoded pair of dangerous bytes after the leading slash, and seeded random strings through POST /api/v0/login (text/html); the federated-login flow; the success path of every redirecting second-factor handler (bootstrap OTP, TOTP, VIP, Okta) with hostile values in the form field, the query string, Referer, Origin and forwarding headers; the family /<seg>{#,?,%23}/..{/..}*/<dangerous pair><host> (1-3 leading segments) at function level and through every redirecting handler; the channel family: no form/query value and hostile values in every cookie name the package reads or sets (harvested from the source), cookies and headers named like the parameter, a JSON body, a multipart field, a path suffix, through loginHandler, every second-factor success path and the federated flow; non-trivial = the filter accepted the string (redirect target differs from the profile page); distinct by (input, Location)")
 	// a fake OAuth2 provider for the federated-login flow
 	provider := httptest.NewServer(http.HandlerFunc(func(w http.ResponseWriter, r *http.Request) {
 		w.Header().Set("Content-Type", "application/json")
@@ -318,6 +532,11 @@ func TestVerif_C17(t *testing.T) {
 	oktaAuth, err := okta.NewPublicTesting(oktaSrv.URL+"/api/v1/authn", testlogger.New(t))
 	if err != nil {
 		t.Fatal(err)
+	}
+	tStart := time.Now()
+	tick := func(name string) {
+		res.Extra["seconds:"+name] = fmt.Sprintf("%.1f", time.Since(tStart).Seconds())
+		tStart = time.Now()
 	}
 	maxLen := 4
 	nRandom := 600
@@ -389,6 +608,7 @@ func TestVerif_C17(t *testing.T) {
 		}
 	}
 	ship = true
+	tick("1:function-level")
 	// (2) through the real login handler
 	httpCases := append(c17Structured(), c17Encoded()...)
 	for _, s := range c17OwnHostURLs("keymaster.example", false) {
@@ -425,8 +645,11 @@ func TestVerif_C17(t *testing.T) {
 		record(s, rr.Header().Get("Location"), "loginHandler", true)
 	}
 	// the same through a request whose Host header carries the port
-	for _, s := range c17OwnHostURLs("keymaster.example:443", false) {
+	for i, s := range c17OwnHostURLs("keymaster.example:443", false) {
 		if !strings.HasPrefix(s, "https://") && !strings.HasPrefix(s, "//") {
+			continue
+		}
+		if i%2 == 1 && !verifThorough() { // the function-level sweep (1b) sees every one under both Host headers
 			continue
 		}
 		form := url.Values{}
@@ -443,6 +666,7 @@ func TestVerif_C17(t *testing.T) {
 		}
 		record(s, rr.Header().Get("Location"), "loginHandler:host-with-port", true)
 	}
+	tick("2:loginHandler")
 	// (3) federated login: begin -> (optionally begin again, with the setup cookie of the first
 	// attempt) -> provider callback; the destination is parked server side in between
 	oauthBegin := func(dest string, setup *http.Cookie) (cookie *http.Cookie, st string, ok bool) {
@@ -518,6 +742,7 @@ func TestVerif_C17(t *testing.T) {
 			}
 		}
 	}
+	tick("3:federated")
 	// (4) a second-factor success path (bootstrap OTP): the destination may only come from the
 	// filtered login_destination form field; every other request-controlled channel (query string,
 	// Referer, Origin, forwarding headers) must be ignored — for the model they are not inputs, so
@@ -660,6 +885,7 @@ func TestVerif_C17(t *testing.T) {
 		}
 	}
 
+	tick("4:second-factor")
 	// (5) the login prompt of a protected page, followed through the whole provider round trip, for both values
 	// of oauth2.force_redirect and every form of the request target (origin-form, absolute-form naming this host,
 	// absolute-form naming a foreign host, "//host/path").  The model: the prompt is always the login page; what
@@ -892,6 +1118,7 @@ func TestVerif_C17(t *testing.T) {
 			res.hit(verifHit{Key: "C17:harness:no-2fa-page-flow:" + pr.name, Oracle: "harness", What: "the second-factor page of a protected page never led to a redirect through this handler", Case: pr.name})
 		}
 	}
+	tick("5:prompt-flow")
 	// (6) logoutHandler: Location "/?user=<name in the session>"; the name is whatever the password backend or the
 	// identity provider admitted.  Names without control bytes must stay on the origin (theorem c17_logout).
 	type logoutObs struct {
@@ -929,10 +1156,224 @@ func TestVerif_C17(t *testing.T) {
 			}
 		}
 	}
+
+	tick("6:logout")
+	// (7) fragment/query marker x dot segments x dangerous pair: function level (the oracle sees every member; Coq
+	// gets every member the filter let through that is off-origin, half of the other accepted ones and an eighth
+	// of the refused ones), then a smaller sub-family through every redirecting handler
+	for i, sdest := range c17DotSegFamily(verifThorough()) {
+		form := url.Values{}
+		form.Set("login_destination", sdest)
+		req := verifNewRequest("POST", "/api/v0/login", form)
+		req.ParseForm()
+		d := getLoginDestination(req)
+		rr := httptest.NewRecorder()
+		http.Redirect(rr, req, d, 302)
+		loc := rr.Header().Get("Location")
+		div := 8
+		if loc != profilePath {
+			div = 2
+		}
+		if verifThorough() {
+			div *= 16
+		}
+		ship = i%div == 0 || !verifSameOrigin(loc)
+		record(sdest, loc, "getLoginDestination:dot-segments", true)
+	}
+	ship = true
+	dotFew := c17DotSegFew(verifThorough())
+	for _, sdest := range dotFew {
+		form := url.Values{}
+		form.Set("username", "alice")
+		form.Set("password", "alicepw")
+		form.Set("login_destination", sdest)
+		req := verifNewRequest("POST", "/api/v0/login", form)
+		req.Header.Set("Accept", "text/html")
+		rr, _ := env.serve(req)
+		if rr.Code != 302 {
+			res.hit(verifHit{Key: "C17:harness:login-status", Oracle: "harness", What: fmt.Sprintf("login did not redirect: %d", rr.Code), Case: sdest})
+			continue
+		}
+		record(sdest, rr.Header().Get("Location"), "loginHandler", true)
+	}
+	for i, sdest := range dotFew {
+		if c, st, ok := oauthBegin(sdest, nil); ok {
+			if loc, ok := oauthCallback(c, st); ok {
+				record(sdest, loc, "oauth2:begin,callback", true)
+			}
+		} else {
+			res.hit(verifHit{Key: "C17:harness:oauth2-begin", Oracle: "harness", What: "federated login could not be started", Case: sdest})
+		}
+		// every handler sees every third member in the quick tier (each a different third), two thirds in the thorough tier
+		for j, pr := range provers {
+			if (verifThorough() && (i+j)%2 == 0) || (i+j)%3 == 0 {
+				secondFactor(pr, sdest, "form")
+			}
+		}
+	}
+	tick("7:dot-segments")
+	// (8) the channel family: every request part a handler could read other than the form/query value — every cookie
+	// name the package reads or sets (harvested from the current source), cookies / headers named like the
+	// destination parameter, a JSON body, a multipart field, a path suffix — carries a hostile value while the
+	// request has NO login_destination form/query value (or an empty one).  The model (Model/DestReq.v) reads the
+	// form/query channel only: the Location is the profile page.  Through loginHandler, every second-factor
+	// success path and the federated flow.
+	harvest := c17LoadChannels(t)
+	res.Extra["harvested_cookie_names"] = harvest.CookieNames
+	res.Extra["harvested_destination_params"] = harvest.DestinationParams
+	type chanObs struct {
+		pf, fed bool
+		form    *string
+		chans   []c17Chan
+		loc     string
+		desc    string
+	}
+	var chanCases []chanObs
+	// builds the request of one probe for one handler: credentials / OTP travel in the urlencoded body when the
+	// probe has none of its own, else in the query string (and HTTP basic authentication for the password)
+	buildProbe := func(method, target string, need url.Values, basicUser, basicPass string, session *http.Cookie, p c17Probe) *http.Request {
+		target += p.pathSuffix
+		form := url.Values{}
+		for k, v := range need {
+			form[k] = v
+		}
+		var req *http.Request
+		switch {
+		case p.jsonBody != "":
+			req = verifNewRequest("GET", target, form) // the needed values go into the query string
+			req.Method = method
+			req.Body = ioutil.NopCloser(strings.NewReader(p.jsonBody))
+			req.ContentLength = int64(len(p.jsonBody))
+			req.Header.Set("Content-Type", "application/json")
+		case p.multipart != nil:
+			var buf bytes.Buffer
+			mw := multipart.NewWriter(&buf)
+			for _, kv := range p.multipart {
+				mw.WriteField(kv[0], kv[1])
+			}
+			mw.Close()
+			req = verifNewRequest("GET", target, form)
+			req.Method = method
+			req.Body = ioutil.NopCloser(bytes.NewReader(buf.Bytes()))
+			req.ContentLength = int64(buf.Len())
+			req.Header.Set("Content-Type", mw.FormDataContentType())
+		default:
+			if p.form != nil {
+				form.Set("login_destination", *p.form)
+			}
+			req = verifNewRequest(method, target, form)
+		}
+		if basicUser != "" && (p.jsonBody != "" || p.multipart != nil) {
+			req.SetBasicAuth(basicUser, basicPass)
+		}
+		for _, c := range p.cookiesBefore {
+			req.Header.Add("Cookie", c)
+		}
+		if session != nil {
+			req.AddCookie(session)
+		}
+		for _, c := range p.cookiesAfter {
+			req.Header.Add("Cookie", c)
+		}
+		for _, kv := range p.headers {
+			req.Header.Set(kv[0], kv[1])
+		}
+		req.Header.Set("Accept", "text/html")
+		return req
+	}
+	chanDone := func(handler string, fed bool, p c17Probe, hostile, loc string) {
+		pf := false
+		if p.form != nil {
+			_, perr := url.Parse(*p.form)
+			pf = perr != nil
+		}
+		desc := fmt.Sprintf("%s %s %q", handler, p.class, p.chans)
+		chanCases = append(chanCases, chanObs{pf: pf, fed: fed, form: p.form, chans: p.chans, loc: loc, desc: desc})
+		res.eval("chan\x00"+desc+"\x00"+loc, true)
+		res.bump("via:" + handler + ":channel:" + p.class)
+		res.bump("channel-redirected:" + handler)
+		if !verifSameOrigin(loc) {
+			res.hit(verifHit{Key: "C17:unfiltered-channel:" + handler + ":" + p.class, Oracle: "a request without a login_destination form/query value is redirected off the keymaster origin: the target is taken from another request channel without the filter",
+				What:     fmt.Sprintf("%s: %s carrying %q (no form/query value) yields Location %q", handler, p.class, hostile, loc),
+				Case:     map[string]interface{}{"handler": handler, "channel": p.class, "parts": fmt.Sprintf("%q", p.chans), "cookies_before_session": p.cookiesBefore, "cookies_after_session": p.cookiesAfter, "headers": p.headers, "json_body": p.jsonBody, "multipart": p.multipart, "path_suffix": p.pathSuffix, "value": []byte(hostile)},
+				Observed: loc})
+		}
+	}
+	chanHostile := []string{"//evil.example/x", "/\\evil.example/x", "https://evil.example/"}
+	if verifThorough() {
+		chanHostile = append(chanHostile, "/ok/landing?x=1", "/a#/../\\evil.example/", "/%2Fevil.example/", "/\t/evil.example", "\\\\evil.example", "evil.example")
+	}
+	for _, hostile := range chanHostile {
+		for _, p := range c17ChannelProbes(harvest, hostile, []string{authCookieName}) {
+			// loginHandler
+			need := url.Values{}
+			need.Set("username", "alice")
+			need.Set("password", "alicepw")
+			if p.jsonBody != "" || p.multipart != nil {
+				need = url.Values{}
+			}
+			rr, _ := env.serve(buildProbe("POST", "/api/v0/login", need, "alice", "alicepw", nil, p))
+			if rr.Code == 302 {
+				chanDone("loginHandler", false, p, hostile, rr.Header().Get("Location"))
+			} else {
+				res.bump("channel-not-redirected:loginHandler:" + p.class)
+			}
+			// second-factor success paths
+			for _, pr := range provers {
+				target, otp := pr.prep()
+				if otp == "" {
+					pr.done()
+					res.hit(verifHit{Key: "C17:harness:" + pr.name, Oracle: "harness", What: "could not obtain a second-factor value the handler accepts", Case: p.class})
+					continue
+				}
+				need := url.Values{}
+				need.Set("OTP", otp)
+				rr, _ := env.serve(buildProbe("POST", target, need, "", "", env.cookie(pr.user, AuthTypePassword), p))
+				pr.done()
+				if rr.Code == 302 {
+					chanDone(pr.name, false, p, hostile, rr.Header().Get("Location"))
+				} else {
+					res.bump("channel-not-redirected:" + pr.name + ":" + p.class)
+				}
+			}
+			// federated flow: begin (no parameter) -> provider callback
+			method := "GET"
+			if p.jsonBody != "" || p.multipart != nil {
+				method = "POST"
+			}
+			rr, _ = env.serve(buildProbe(method, oauth2LoginBeginPath, url.Values{}, "", "", nil, p))
+			if c, st, ok := providerRedirect(rr); ok {
+				if loc, ok := oauthCallback(c, st); ok {
+					chanDone("oauth2", true, p, hostile, loc)
+				} else {
+					res.bump("channel-not-redirected:oauth2-callback:" + p.class)
+				}
+			} else {
+				res.bump("channel-not-redirected:oauth2:" + p.class)
+			}
+		}
+	}
+	for _, hname := range []string{"loginHandler", "bootstrapOtp", "totp", "vip", "okta", "oauth2"} {
+		for _, class := range []string{"cookie", "cookie+empty-form-value", "header", "json-body"} {
+			if res.counts["via:"+hname+":channel:"+class] == 0 {
+				res.hit(verifHit{Key: "C17:harness:no-channel-probe:" + hname + ":" + class, Oracle: "harness", What: "no probe of this channel class reached the redirect of this handler", Case: hname + " " + class})
+			}
+		}
+	}
+	tick("8:channels")
 	// Coq case file
 	var sb strings.Builder
 	sb.WriteString(coqCaseHeader)
-	sb.WriteString("From KM Require Import Base.Cases Model.Dest.\nOpen Scope N_scope.\n")
+	sb.WriteString("From KM Require Import Base.Cases Model.Dest Model.DestReq.\nOpen Scope N_scope.\n")
+	// every list is scanned once: number of cases that differ from the model, the first 40 such indices (binary
+	// numbers: a long list of unary indices takes minutes to read back) and the first 40 of them on which the
+	// OBSERVED Location violates the property's own predicate (same_origin, evaluated here in Coq)
+	scanOut := func(prefix, cls, list string) string {
+		return "Definition " + prefix + "_scan := Eval vm_compute in scan " + cls + " (" + list + ").\n" +
+			"Definition " + prefix + "_nmismatches := Eval vm_compute in scan_count " + prefix + "_scan.\nPrint " + prefix + "_nmismatches.\n" +
+			"Definition " + prefix + "_mismatches := Eval vm_compute in scan_mismatches " + prefix + "_scan.\nPrint " + prefix + "_mismatches.\n" +
+			"Definition " + prefix + "_offorigin := Eval vm_compute in scan_violating " + prefix + "_scan.\nPrint " + prefix + "_offorigin.\n"
+	}
 	const shard = 3000
 	var names []string
 	for i := 0; i < len(all); i += shard {
@@ -953,7 +1394,7 @@ func TestVerif_C17(t *testing.T) {
 		}
 		sb.WriteString("].\n")
 	}
-	sb.WriteString("Definition c17_mismatches := Eval vm_compute in mismatches c17_bad (" + strings.Join(names, " ++ ") + ").\nPrint c17_mismatches.\n")
+	sb.WriteString(scanOut("c17", "c17_cls", strings.Join(names, " ++ ")))
 	// (a unary count of > 100 000 cases overflows the stack when it is read back: count per shard, add in N)
 	var lens []string
 	for _, n := range names {
@@ -968,7 +1409,7 @@ func TestVerif_C17(t *testing.T) {
 		}
 		sb.WriteString(fmt.Sprintf(" (%s, %s, %s, %d%%N, %s, %s, %s)%s\n", coqBool(f.force), coqBool(f.comeback), coqPacked([]byte(f.u)), f.kind, coqPacked([]byte(f.posted)), coqBool(f.pf), coqPacked([]byte(f.loc)), sep))
 	}
-	sb.WriteString("].\nDefinition c17_flow_mismatches := Eval vm_compute in mismatches c17_flow_bad flow_cases.\nPrint c17_flow_mismatches.\n")
+	sb.WriteString("].\n" + scanOut("c17_flow", "c17_flow_cls", "flow_cases"))
 	sb.WriteString("Definition page_cases : list (bool * bs * bs * bs * bs) := [\n")
 	for j, pg := range pages {
 		sep := ";"
@@ -986,7 +1427,20 @@ func TestVerif_C17(t *testing.T) {
 		}
 		sb.WriteString(fmt.Sprintf(" (%s, %s, %s)%s\n", coqBool(l.pf), coqPacked([]byte(l.user)), coqPacked([]byte(l.loc)), sep))
 	}
-	sb.WriteString("].\nDefinition c17_logout_mismatches := Eval vm_compute in mismatches c17_logout_bad logout_cases.\nPrint c17_logout_mismatches.\n")
+	sb.WriteString("].\n" + scanOut("c17_logout", "c17_logout_cls", "logout_cases"))
+	sb.WriteString("Definition chan_cases : list chan_case := [\n")
+	for j, c := range chanCases {
+		sep := ";"
+		if j == len(chanCases)-1 {
+			sep = ""
+		}
+		form := "None"
+		if c.form != nil {
+			form = "(Some " + coqPacked([]byte(*c.form)) + ")"
+		}
+		sb.WriteString(fmt.Sprintf(" (%s, %s, %s, %s, %s)%s\n", coqBool(c.pf), coqBool(c.fed), form, coqChans(c.chans), coqPacked([]byte(c.loc)), sep))
+	}
+	sb.WriteString("].\n" + scanOut("c17_chan", "c17_chan_cls", "chan_cases"))
 	if err := ioutil.WriteFile(filepath.Join(verifOut(), "CasesC17.v"), []byte(sb.String()), 0644); err != nil {
 		t.Fatal(err)
 	}
@@ -1011,6 +1465,15 @@ func TestVerif_C17(t *testing.T) {
 		lidx.WriteString(fmt.Sprintf("%d\tuser=%q\tlocation=%q\n", i, l.user, l.loc))
 	}
 	ioutil.WriteFile(filepath.Join(verifOut(), "CasesC17logout.idx"), []byte(lidx.String()), 0644)
+	var cidx strings.Builder
+	for i, c := range chanCases {
+		form := "none"
+		if c.form != nil {
+			form = fmt.Sprintf("%q", *c.form)
+		}
+		cidx.WriteString(fmt.Sprintf("%d\t%s\tform-value=%s\tfederated=%v\tlocation=%q\n", i, c.desc, form, c.fed, c.loc))
+	}
+	ioutil.WriteFile(filepath.Join(verifOut(), "CasesC17chan.idx"), []byte(cidx.String()), 0644)
 	res.sample(map[string]interface{}{"login_destination": "/a/../b?x=1", "via": "loginHandler"})
 	for _, o := range all[len(all)-3:] {
 		res.sample(map[string]interface{}{"login_destination": o.in, "location": o.loc, "via": o.via})
